@@ -23,6 +23,7 @@ What is read (token level; comments dropped, `#if 0 / #else / #endif` evaluated,
   src/cgns_header.h  CGNS_DELETE_SHIFT / CGNS_DELETE_CHILD   normalised token text of the two macros -> `macro_shift`,
         `macro_child` (the Gallina transcription in Mirror.v is pinned to these texts)
   src/cgns_internals.c  every `void cgi_free_X(cgns_Y *p)`  -> `free_sigs` (free function -> struct type it frees)
+  src/cgnslib.c  every node-context writer: the fields of the (possibly re-used) slot it sets -> `reinit_rows`
   src/cgns_internals.c  every qsort call, the comparator sort_childnode_names and the callers of cgi_sort_names
         -> `sort_calls`, `sort_comparator`, `sort_names_callers` (which arrays are ordered by name when a file is read)
   src/cgnslib.c  every cg_*_write with an explicit overwrite loop  -> `write_table`: one WRow per loop with a column
@@ -641,6 +642,50 @@ def parse_ctx_writers(toks):
     return rows
 
 
+# ----------------------------------------------------------------------------- re-initialisation of re-used slots
+def parse_reinit(ltoks, itoks):
+    """every `X = cgi_Y_address(CG_MODE_WRITE, ...)` writer of cgnslib.c: the struct type the resolver returns and the fields of
+    *X the writer sets afterwards (X->f = ..., X->f[..] = ..., strcpy/snprintf/memcpy(X->f ...), &X->id handed to
+    cgi_new_node, or memset(X ...)).  On overwrite the resolver hands back the OLD slot (freed, not cleared), so a field the
+    writer does not set keeps the value of the entity that was replaced.  -> RRow fn resolver type memset [fields]"""
+    iv = vals(itoks)
+    rty = {}
+    for f, (b0, b1) in functions(itoks).items():
+        if f.startswith("cgi_") and f.endswith("_address"):
+            k = b0
+            while k > 0 and iv[k] != f:
+                k -= 1
+            rty[f] = iv[k - 2] if iv[k - 1] == "*" and itoks[k - 2][0] == "id" else "?"
+    v = vals(ltoks)
+    rows = []
+    for fname, (b0, b1) in sorted(functions(ltoks).items(), key=lambda kv: kv[1][0]):
+        i = b0
+        while i < b1:
+            if ltoks[i][0] == "id" and v[i].startswith("cgi_") and v[i].endswith("_address") and v[i + 1] == "(" \
+                    and v[i + 2] == "CG_MODE_WRITE" and v[i - 1] == "=" and ltoks[i - 2][0] == "id":
+                x = v[i - 2]
+                assigned, memset = [], False
+                for j in range(i, b1):
+                    if v[j] == x and v[j + 1] == "->" and v[j + 3] in ("=", "["):
+                        assigned.append(v[j + 2])
+                    if v[j] in ("strcpy", "strncpy", "snprintf", "memcpy") and v[j + 1] == "(" and v[j + 2] == x and v[j + 3] == "->":
+                        assigned.append(v[j + 4])
+                    if v[j] == "memset" and v[j + 1] == "(" and v[j + 2] == x and v[j + 3] == ",":
+                        memset = True
+                    if v[j] in ("cgi_new_node", "cgi_new_node_partial") and v[j + 1] == "(":
+                        args, _ = split_args(ltoks, j + 1)
+                        if len(args) > 3 and vals(args[3]) == ["&", x, "->", "id"]:
+                            assigned.append("id")
+                seen = []
+                for f in assigned:
+                    if f not in seen:
+                        seen.append(f)
+                rows.append("RRow %s %s %s %s %s" % (cs(fname), cs(v[i]), cs(rty.get(v[i], "?")), cbool(memset), clist([cs(f) for f in seen])))
+                break
+            i += 1
+    return rows
+
+
 # ----------------------------------------------------------------------------- what is sorted on read
 def parse_sorting(itoks, ltoks):
     """every qsort call of cgns_internals.c as "function: count expression / comparator", the return expression of the
@@ -721,6 +766,9 @@ def translate(repo):
     out.append("Definition addr_tails : list atail := [\n  %s\n]." % ";\n  ".join(guarded(lambda: parse_addr_tails(itoks), lambda w: ["ATailOther " + cs("?") + " " + cs(w)])))
     out.append("")
     out.append("Definition ctx_writers : list nrow := [\n  %s\n]." % ";\n  ".join(guarded(lambda: parse_ctx_writers(ltoks), lambda w: ["NRow " + cs("?") + " " + cs("?") + " " + cs("?") + " " + cs(w)])))
+    out.append("")
+    out.append("Definition reinit_rows : list rrow := [\n  %s\n]." % ";\n  ".join(
+        guarded(lambda: parse_reinit(ltoks, itoks), lambda w: ["RRow " + cs("?") + " " + cs("?") + " " + cs(w) + " false []"])))
     out.append("")
     calls, cmp_text, callers = guarded(lambda: parse_sorting(itoks, ltoks), lambda w: ([w], "UNPARSED", []))
     out.append("Definition sort_calls : list string := %s." % clist([cs(c) for c in calls]))
